@@ -338,6 +338,21 @@ def extract(repo, failures):
         if not h:
             failures.append("sanitize_non_printable_chars: hex digit table not found")
     out["escape"] = dict(hex=hexd, prefix=prefix, nibbles=nib)
+    # both loops of the sanitiser ask the user's predicate about EVERY byte: the predicate call is the first thing in
+    # each loop body, nothing (no range shortcut, no `continue`) stands before it
+    sn_c = re.sub(r"\s", "", sn or "")
+    out["sanitizeAsksEveryByte"] = bool(
+        "for(charc:formatted_msg){if(!options.check_printable_char(c)){contains_non_printable_char=true;break;}}" in sn_c and
+        "for(charc:formatted_msg_copy){if(options.check_printable_char(c)){" in sn_c and
+        sn_c.count("for(charc:") == 2 and "continue" not in sn_c)
+    # std::set / std::multiset are rebuilt by decode_arg with the comparator of the argument type (std::less rebound to
+    # the decoded key type, anything else kept), so the backend iterates them in the order they were encoded
+    st = strip_cpp_comments(read(repo, "include/quill/std/Set.h"))
+    st = re.sub(r"#if defined\(_WIN32\).*?#endif", "", st, flags=re.S)
+    st_c = re.sub(r"\s", "", st)
+    out["setKeepsComparator"] = bool(
+        "usingReboundCompare=typenamestd::conditional<std::is_same<Compare,std::less<Key>>::value,std::less<ReturnType>,Compare>::type;" in st_c and
+        "SetType<ReturnType,ReboundCompare,ReboundAllocator>arg;" in st_c)
     pm = func_body(bw, r"void\s+_populate_formatted_log_message\s*\([^)]*\)\s*\{") or ""
     out["sanitizeGuard"] = bool(re.search(
         r"_options\.check_printable_char\s*&&\s*_format_args_store\.has_string_related_type\(\)", pm))
@@ -411,6 +426,8 @@ def render(out):
     L.append("def escapePrefix : List Nat := [%s]" % ", ".join(str(x) for x in prefix))
     L.append("def escapeNibbles : List String := [%s]" % ", ".join(lean_str(x) for x in nib))
     L.append("def sanitizeGuard : Bool := %s" % lean_bool(out["sanitizeGuard"]))
+    L.append("def sanitizeAsksEveryByte : Bool := %s" % lean_bool(out["sanitizeAsksEveryByte"]))
+    L.append("def setKeepsComparator : Bool := %s" % lean_bool(out["setKeepsComparator"]))
     return "\n".join(L)
 
 
@@ -428,7 +445,7 @@ def _neutral():
         "readerBatchPercent": 0, "commitReadPerPass": False, "decodeClearsStoreFirst": False, "storeClearResetsAll": False,
         "kinds": {name: dict(k0) for name, _, _ in CONTAINERS},
         "directFormatCalls": 0, "directPushes": 0, "deferredFormatCalls": 0, "nonpodSlackSites": 0,
-        "printable": dict(lo=0, hi=0, extra=[]), "escape": dict(hex="", prefix=[], nibbles=[]), "sanitizeGuard": False,
+        "printable": dict(lo=0, hi=0, extra=[]), "escape": dict(hex="", prefix=[], nibbles=[]), "sanitizeGuard": False, "sanitizeAsksEveryByte": False, "setKeepsComparator": False,
     }
 
 
